@@ -19,7 +19,7 @@ what `QWF q` of `History.lean` unfolds to).
   `push_increase`, `push_decrease`, `change_priority`, `change_priority_by`, `remove`, `pop*`, `extend`,
   `From<other kind>`, the capacity operations, `clear`, `drain`; for `get_mut(k', w)` it asks `k' = k → w` is the identity on items with
   key `k`; for `peek_*_mut(w)`, `pop_*_if(f)`, `retain_mut(f)` that the closure returns items with key `k` as they are; for
-  `iter_mut` that the program writes no payload; for `append(other)` that `other` does not hold `k` (see
+  `iter_mut` that the program writes no payload; for `append(other)` that `other` (any well-formed queue of the same kind) does not hold `k` (see
   `C12_append_*`: the crate swaps the two queues when `other` is larger, and then `other`'s item value wins); it is
   false for `From<Vec>`, `FromIterator`, `Deserialize`, which replace the whole queue.
 * `C12_payload_persists_history` — histories, by induction: as long as `k` stays in the queue, its stored item is the
@@ -139,28 +139,27 @@ theorem C12_iterMut_written {kind : Kind} {s s' : Store P} {leak : Bool} {prog :
   | none => rfl
   | some e => simp only [Option.map_some]; rw [cont_writesAt_once j outs prog e t cw ho hp hu]
 
-/-- **`append` and the stored item**: when the appended queue does not hold `k`, or is not larger than `self`, the
-item `self` stores for `k` stays -/
-theorem C12_append_keeps {kind : Kind} {s s' : Store P} {xs : Array (Item × P)} {o : Out P} (h : s.WF)
-    (hs : step ⟨kind, s⟩ (.append xs) = .ok (⟨kind, s'⟩, o)) {k : Nat} {e : Item × P} (ha : s.abs k = some e)
-    (hc : (∀ x ∈ xs.toList, x.1.key ≠ k) ∨ (xs.toList.map (·.1.key)).eraseDups.length ≤ s.size) :
+/-- **`append` and the stored item**, for ANY well-formed other queue `oth` of the same kind (given by its store): when
+`oth` does not hold `k`, or is not larger than `self`, the item `self` stores for `k` stays -/
+theorem C12_append_keeps {kind : Kind} {s s' oth : Store P} {o : Out P} (h : s.WF) (ho : oth.WF)
+    (hs : step ⟨kind, s⟩ (.append oth) = .ok (⟨kind, s'⟩, o)) {k : Nat} {e : Item × P} (ha : s.abs k = some e)
+    (hc : oth.abs k = none ∨ oth.size ≤ s.size) :
     s'.abs k = some e := by
-  obtain ⟨s1, e1, _, e3⟩ := cont_step_append (kind := kind) h xs
+  obtain ⟨s1, e1, _, e3⟩ := cont_step_append (kind := kind) h ho
   rw [e1] at hs; cases hs
   rw [e3 k, ha]
   rcases hc with hc | hc
-  · rw [cont_find?_none_of_forall hc]
+  · rw [hc]
     split <;> simp
   · rw [if_neg (by omega)]; rfl
 
-/-- … but when the appended queue is strictly larger and holds `k`, ITS item value (and priority) is the one kept:
+/-- … but when the appended queue `oth` is strictly larger and holds `k`, ITS item value (and priority) is the one kept:
 the crate swaps the two queues first.  (This is the documented behaviour of `append`; it is the one operation besides
 the whole-queue constructors through which a stored item value can be replaced without a `*_mut` access.) -/
-theorem C12_append_swaps {kind : Kind} {s s' : Store P} {xs : Array (Item × P)} {o : Out P} (h : s.WF)
-    (hs : step ⟨kind, s⟩ (.append xs) = .ok (⟨kind, s'⟩, o)) {k : Nat} {x : Item × P}
-    (hx : xs.toList.find? (fun e => e.1.key == k) = some x)
-    (hc : s.size < (xs.toList.map (·.1.key)).eraseDups.length) : s'.abs k = some x := by
-  obtain ⟨s1, e1, _, e3⟩ := cont_step_append (kind := kind) h xs
+theorem C12_append_swaps {kind : Kind} {s s' oth : Store P} {o : Out P} (h : s.WF) (ho : oth.WF)
+    (hs : step ⟨kind, s⟩ (.append oth) = .ok (⟨kind, s'⟩, o)) {k : Nat} {x : Item × P}
+    (hx : oth.abs k = some x) (hc : s.size < oth.size) : s'.abs k = some x := by
+  obtain ⟨s1, e1, _, e3⟩ := cont_step_append (kind := kind) h ho
   rw [e1] at hs; cases hs
   rw [e3 k, if_pos hc, hx]; rfl
 
@@ -189,7 +188,7 @@ example : ∀ op ∈ exOps, op.Legal ∧ cont_preservesItem 4 op := by
   intro op hop
   simp only [exOps, List.mem_cons, List.not_mem_nil, or_false] at hop
   rcases hop with rfl | rfl | rfl | rfl | rfl | rfl | rfl | rfl | rfl | rfl | rfl | rfl <;>
-    first | exact ⟨trivial, trivial⟩ | exact ⟨fun _ _ => rfl, fun _ _ _ => rfl⟩
+    first | exact ⟨trivial, trivial⟩ | exact ⟨fun _ _ => rfl, fun _ _ _ => rfl⟩ | exact ⟨(by decide : _ ∧ _ < capLimit), trivial⟩
 example : cont_okR (step ⟨.pq, cont_ex5⟩ (.getMut 4 wr)) (fun r1 =>
     cont_outEntry r1.2 = some (some (⟨4, 40⟩, 1)) ∧ r1.1.s.abs 4 = some (⟨4, 77⟩, 1) ∧
     (∀ n, n ≤ exOps.length → cont_okR (run r1.1 (exOps.take n)) (fun r => (r.1.s.abs 4).isSome = true)) ∧
@@ -208,11 +207,22 @@ example : cont_okR (step ⟨.pq, cont_ex5⟩ (.iterMut false
   decide +kernel
 -- `C12_append_keeps` / `C12_append_swaps`: a small other queue leaves the stored item of 4 alone; a larger one
 -- (six distinct keys against five) replaces it
-example : cont_okR (step ⟨.pq, cont_ex5⟩ (.append #[(⟨4, 0⟩, 100), (⟨9, 90⟩, 2)])) (fun r =>
+example : cont_okR (step ⟨.pq, cont_ex5⟩ (.append (Store.fromVec #[(⟨4, 0⟩, 100), (⟨9, 90⟩, 2)]))) (fun r =>
     r.1.s.abs 4 = some (⟨4, 40⟩, 1) ∧ r.1.s.abs 9 = some (⟨9, 90⟩, 2)) := by decide +kernel
-example : cont_okR (step ⟨.pq, cont_ex5⟩ (.append
-    #[(⟨4, 0⟩, 100), (⟨9, 90⟩, 2), (⟨10, 0⟩, 3), (⟨11, 0⟩, 4), (⟨12, 0⟩, 5), (⟨13, 0⟩, 6)])) (fun r =>
+example : cont_okR (step ⟨.pq, cont_ex5⟩ (.append (Store.fromVec
+    #[(⟨4, 0⟩, 100), (⟨9, 90⟩, 2), (⟨10, 0⟩, 3), (⟨11, 0⟩, 4), (⟨12, 0⟩, 5), (⟨13, 0⟩, 6)]))) (fun r =>
     r.1.s.abs 4 = some (⟨4, 0⟩, 100) ∧ r.1.s.abs 1 = some (⟨1, 10⟩, 5)) := by decide +kernel
+/-- an other queue that is a real heap (built by six pushes: its index tables are NOT the identity) -/
+private def oth6 : Store Nat :=
+  match MaxQ.pushAll [(⟨4, 0⟩, 100), (⟨9, 90⟩, 2), (⟨10, 0⟩, 3), (⟨11, 0⟩, 400), (⟨12, 0⟩, 5), (⟨13, 0⟩, 600)] Store.empty with
+  | .ok s => s
+  | .error _ => Store.empty
+-- the hypotheses of `C12_append_swaps` on it: well-formed, tables not the identity, strictly larger, holds key 4
+example : oth6.WF ∧ oth6.heap ≠ Array.range 6 ∧ cont_ex5.size < oth6.size ∧ oth6.abs 4 = some (⟨4, 0⟩, 100) := by
+  decide +kernel
+example : cont_okR (step ⟨.pq, cont_ex5⟩ (.append oth6)) (fun r =>
+    r.1.s.abs 4 = some (⟨4, 0⟩, 100) ∧ r.1.s.abs 1 = some (⟨1, 10⟩, 5) ∧ r.1.s.size = 10 ∧ MaxQ.Inv r.1.s ∧
+    r.2 matches .other 0 0 0 0) := by decide +kernel
 
 end Examples
 
